@@ -140,6 +140,10 @@ def handle (line : String) : String :=
     -- the decidable part of the hypothesis `CanonFile` of the end-to-end C01 theorems (Props/C01Rec.lean)
     let w := Icl.C01.canonFileWhy (theModel false ⟨2000, 1, 1⟩) (parseTree tree)
     if w == "" then "ok" else w
+  | ["canonfilee", tree] =>
+    -- ... and of `CanonFileE` (EBCDIC theorems: safe text, no record 52)
+    let w := Icl.C01.canonFileEWhy (theModel false ⟨2000, 1, 1⟩) (parseTree tree)
+    if w == "" then "ok" else w
   | ["api", h] => Icl.Api.Wire.runApi h
   | ["apifrom", st, h] => Icl.Api.Wire.runApiFrom st h
   | ["apiconc", st, rq, sc] => Icl.Api.Wire.runConc st rq sc
